@@ -196,6 +196,9 @@ func c19Systematic(tier string) []*Case {
 			}
 		}
 	}
+	for n := 2; n <= 4; n++ {
+		out = append(out, c19InputCase(n, []string{"first", "second line", "third", "4"}[:n], true, []string{"line", "all", "byte", "3byte"}, nil, "stored"))
+	}
 	// outcome classes, one error kind each at first/middle/last position
 	for ek := 0; ek < len(c19Errors); ek++ {
 		for pos := 0; pos < 3; pos++ {
@@ -244,6 +247,22 @@ var c19Pads = []string{"", " ", "  ", "\t", " \t "}
 func c19InputCase(k int, ls []string, finalNL bool, deliveries []string, extra []sim.Config, tag string) *Case {
 	var prog []string
 	var want strings.Builder
+	stored := tag == "stored"
+	if stored {
+		// every line is read and kept first, printed only after the last read: a value
+		// obtained earlier must not change when later input arrives
+		if len(ls) > 0 && ls[len(ls)-1] == "" {
+			finalNL = true
+		}
+		for i := 0; i < k; i++ {
+			prog = append(prog, fmt.Sprintf("%s in%d = %s();", KwVar, i+1, FnInput))
+		}
+		for i := 0; i < k; i++ {
+			prog = append(prog, fmt.Sprintf("%s %s + in%d + %s;", KwPrint, bstr("["), i+1, bstr("]")))
+			fmt.Fprintf(&want, "[%s]\n", strings.Trim(ls[i], " \t\r"))
+		}
+		k = 0
+	}
 	if len(ls) > 0 && ls[len(ls)-1] == "" {
 		finalNL = true // an empty last line only exists if it is terminated
 	}
@@ -267,7 +286,10 @@ func c19InputCase(k int, ls []string, finalNL bool, deliveries []string, extra [
 		nl = 1
 	}
 	cs.Sig = fmt.Sprintf("input:calls=%d,lines=%d,finalnl=%d", k, len(ls), nl)
-	if k == len(ls) && !finalNL {
+	if stored {
+		cs.Sig = fmt.Sprintf("input-stored:lines=%d,finalnl=%d", len(ls), nl)
+	}
+	if k == len(ls) && !finalNL && !stored {
 		cs.Sig += ",lastline-unterminated"
 	}
 	base := scriptCfg(program, stdin)
@@ -321,6 +343,8 @@ var c19Errors = []c19Err{
 	{"unterminated-comment-bare", "lex", "/*/", true},
 	{"unterminated-string-backslash", "lex", KwPrint + " \"C:\\tmp\\", true},
 	{"stray-backslash", "lex", KwPrint + " 1 \\ 2;", false},
+	{"unterminated-string-nul", "lex", KwPrint + " \"abc\x00;", true},
+	{"stray-nul", "lex", KwPrint + " 1 \x00;", false},
 	{"stray-question", "lex", "?", false},
 	{"number-too-large", "lex", KwPrint + " 1" + strings.Repeat("0", 400) + ";", false},
 	{"number-too-large-bangla", "lex", KwVar + " big = \u09e7" + strings.Repeat("\u09e6", 330) + ".5;", false},
@@ -370,6 +394,8 @@ var c19Fancy = []struct{ text, out string }{
 	{KwPrint + " \"a\"; " + KwPrint + " \"b\";", "a\nb\n"},
 	{KwPrint + " \"@#$\";", "@#$\n"},
 	{"{ " + KwPrint + " \"blk\"; }", "blk\n"},
+	{KwPrint + " \"a\x00b\";", "a\x00b\n"},
+	{KwPrint + " \"\x00\";", "\x00\n"},
 	{";", "\x00"}, // placeholder, removed below (a lone ';' is not a statement)
 }
 
@@ -411,7 +437,7 @@ func c19ClassCase(s Src, tag string) *Case {
 			rtIdx = pos
 			// optionally also a front-end error later in the text: then nothing runs at all
 			if Bool(s, "second") {
-				e2 := c19Errors[s.Int("errkind2", 0, 21)]
+				e2 := c19Errors[s.Int("errkind2", 0, 23)]
 				body = append(body, ln{text: e2.text})
 				class = e2.class
 				errName += "+" + e2.name
@@ -478,7 +504,11 @@ func c19Random(s Src, tier string) *Case {
 		if n == 0 {
 			finalNL = true
 		}
-		cs := c19InputCase(k, ls, finalNL, []string{"line", "all", "byte"}, nil, "rnd")
+		tagv := "rnd"
+		if k >= 2 && Chance(s, "stored", 1, 3) {
+			tagv = "stored"
+		}
+		cs := c19InputCase(k, ls, finalNL, []string{"line", "all", "byte"}, nil, tagv)
 		base := cs.Runs[0].Cfg
 		m := s.Int("ncuts", 1, 4)
 		for i := 0; i < m; i++ {
